@@ -5,15 +5,14 @@ import os, re, subprocess, sys, glob
 ROOT = os.path.dirname(os.path.dirname(os.path.abspath(__file__)))
 prev, new, X, Y = sys.argv[1:5]
 os.makedirs(new, exist_ok=True)
-IDEAS = ("Ideas that have not been used much yet: turning the body of an iterator closure (`func(yield func(T) bool) { ... }`) into a method or named function that takes `yield`, or the reverse; "
- "replacing `if !yield(x) { return }` by `if ok := yield(x); !ok { return }` or by a small `emit` helper that reports whether to go on; replacing a range-over-func loop by calling the iterator with an explicit callback (or the reverse) where the early exits stay the same; "
- "replacing index arithmetic by sub-slices (`xs = xs[1:]` walking) or the reverse; hoisting `len(x)` / `x.Len()` into a local before a loop; replacing `make([]T, n)` + indexed stores by `make([]T, 0, n)` + append where provably the same; "
- "extracting the post-processing steps of a function (formatting, sorting, writing) into one unexported helper that receives the intermediate values; extracting the error-reporting block of a function into a helper; "
- "replacing a constant template string by a named constant, by the concatenation of two constants, or moving templates to the top of the file; replacing a `strings.Builder`/`bytes.Buffer` field access by a small unexported accessor method; "
- "replacing `x == nil` tests on an interface-typed field by an unexported predicate method, or the reverse; replacing an immediately invoked closure by straight-line code with a result variable; replacing several returns of a value by one result variable that is assigned on the branches; "
- "passing `x.Pos()` (or another pure getter result) through a local; merging two adjacent `case` clauses with identical bodies of a type switch over distinct types only when the body does not depend on the static type - otherwise leave them; "
- "replacing an `append`-collected `[]T` that is looped over afterwards by a work list consumed from the front (only where order and effects provably stay the same); replacing `defer f()` by an explicit call on every exit where there is exactly one exit. "
- "Do NOT add caches, memoisation or package-level variables.")
+IDEAS = ("Ideas that have not been used much yet: changing the SHAPE of a scanning loop without changing what it does (`for { if c == EOF { break } ... c = next() }` into `for c != EOF { ... c = next() }`, a `continue` into an if/else, a labelled loop) - take great care that every path still reads the next character exactly when it did before; "
+ "moving one arm of a big `switch` (over a reflect kind, over an AST node type, over a verb character) into an unexported method or function of its own, or merging a small helper back into its only caller; "
+ "in a function that renders a map or struct value: naming intermediate results, splitting the 'collect and order the keys' step from the 'write the entries' step into two helpers, replacing an index loop over fields by a range over an integer, replacing `bytes.Buffer` by `strings.Builder`; "
+ "in iterator code: hoisting a repeated `if !yield(x) { return }` into a local closure that reports whether to go on, turning a range-over-func loop into an explicit callback call with the same early exits, or the reverse; "
+ "replacing a small constructor's composite literal by field-by-field assignment to a local that is then returned, or the reverse; giving a one-line predicate or path/name helper a name (`isEmpty`, `sumPath(dir)`), or inlining such a helper; "
+ "in a function with a local work list (`defers`, `pending`): renaming it, pre-sizing it, or consuming it with a range loop instead of an index loop; replacing `x == \"\"` by `len(x) == 0` or the reverse; "
+ "replacing `slices.DeleteFunc(xs, pred)` by an explicit filtering loop that keeps the same elements, or the reverse; passing a package-level constant through a local. "
+ "Do NOT add caches, memoisation or package-level variables, and do not change which characters, files, fields or types are processed.")
 for n in range(1, 9):
     src = open(os.path.join(prev, f"R{n}.prompt")).read()
     m = re.search(r"/tmp/[a-z0-9]+/R%d" % n, src)
@@ -37,6 +36,6 @@ for n in range(1, 9):
     last = max(i for i, l in enumerate(lines) if l.startswith("  - "))
     lines[last+1:last+1] = extra + [IDEAS]
     s = "\n".join(lines)
-    s = re.sub(r"\w+ refactorings of this area have already been collected", "Thirteen refactorings of this area have already been collected", s)
+    s = re.sub(r"\w+ refactorings of this area have already been collected", "Fifteen refactorings of this area have already been collected", s)
     open(f"{new}/R{n}.prompt", "w").write(s)
 print("written", new)
